@@ -339,4 +339,9 @@ def r4_accepted_names_unchanged(a, tier):
     return rep
 
 
-RULES = [r1_placement, r2_folding, r3_generated, r4_accepted_names_unchanged]
+def r5_calls_keep_their_rule(a, tier):
+    from .c01_optimizer import calls_keep_their_rule
+    return calls_keep_their_rule(a, 'C11.R5')
+
+
+RULES = [r1_placement, r2_folding, r3_generated, r4_accepted_names_unchanged, r5_calls_keep_their_rule]
